@@ -53,6 +53,11 @@ var AttrNames = []string{"id", "x", "k"}
 // TextVals range over numeric, non-numeric, duplicate, padded and signed strings (never empty: an
 // empty text node does not exist in the XPath data model).
 var TextVals = []string{"10", "x", "2.5", "-3", "007", "abc", "10", "3", " 12 ", "1e3", "30", "a-1"}
+
+// ExoticTextVals / ExoticAttrVals add numerals padded with characters that are white space for Unicode but
+// not for XPath (NBSP, NEL, ideographic space): they are NOT numbers. Used only where no ASCII restriction applies.
+var ExoticTextVals = append(append([]string(nil), TextVals...), "\u00a05", "7\u0085", "3\u3000")
+var ExoticAttrVals = append(append([]string(nil), AttrVals...), "\u00a02", "4\u3000")
 var AttrVals = []string{"1", "2", "x", "", "10", "2", " 3", "abc"}
 
 type TreeOpts struct {
